@@ -23,15 +23,21 @@ place_demo() {  # put the demonstration file(s) where meta.json says, unless dem
   esac
 }
 cd $WT
+STATIC_ONLY=${STATIC_ONLY:-0}   # 1: the seed was confirmed earlier (eval.json); only redo the static checks
+if [ "$STATIC_ONLY" = 1 ] && [ -f /verif/seeded/$PID-$N/eval.json ]; then
+  RC_CLEAN=$(jq -r .demo_rc_clean /verif/seeded/$PID-$N/eval.json); RC_PATCHED=$(jq -r .demo_rc_patched /verif/seeded/$PID-$N/eval.json)
+else STATIC_ONLY=0
 place_demo
 echo "== demo on clean tree"; bash -o pipefail -c "$DEMO" > /tmp/seed-$PID-$N.clean.log 2>&1; RC_CLEAN=$?
 grep -q "no tests to run" /tmp/seed-$PID-$N.clean.log && { echo "   demo did not run (no tests to run)"; RC_CLEAN=99; }
 echo "   rc=$RC_CLEAN"
 clean
+fi
 if ! git -C $WT apply $S/patch.diff; then echo "PATCH DOES NOT APPLY on current HEAD"; clean; exit 3; fi
 FILES=$(git -C $WT diff --name-only | tr '\n' ' ')
 echo "== build of touched packages"; PK=$(for f in $FILES; do case $f in *.go) echo ./$(dirname $f);; esac; done | sort -u | tr '\n' ' ')
 RC_BUILD=0; : > /tmp/seed-$PID-$N.build.log
+[ "$STATIC_ONLY" = 1 ] && PK=""
 for pk in $PK; do
   case $pk in
     ./lib/datastructures/*) (cd lib/datastructures && go build ./${pk#./lib/datastructures/}) >> /tmp/seed-$PID-$N.build.log 2>&1 || RC_BUILD=1;;
@@ -39,9 +45,11 @@ for pk in $PK; do
     *) go build $pk >> /tmp/seed-$PID-$N.build.log 2>&1 || RC_BUILD=1;;
   esac
 done; echo "   rc=$RC_BUILD ($PK)"
+if [ "$STATIC_ONLY" != 1 ]; then
 place_demo
 echo "== demo with patch"; bash -o pipefail -c "$DEMO" > /tmp/seed-$PID-$N.patched.log 2>&1; RC_PATCHED=$?
 echo "   rc=$RC_PATCHED"
+fi
 # remove demo files again (keep the patch applied for the static checks)
 git -C $WT clean -fdq -e SEED
 cd /verif
